@@ -83,6 +83,61 @@ theorem history_coherent (dim3 : Bool) (hl : dim3 = true → LawfulGeo V N) (vs 
     · rename_i s1 hs
       exact ih s1 h (step_coherent dim3 hl s0 s1 op hc0 hs)
 
+/-! ## the QBVH (and therefore the AABB) stays the one a fresh build would construct
+
+`Mesh.qbvh = some cs` records the triangle coordinates `rebuild_qbvh` last ran on.  `QCoherent box s`: these have,
+triangle by triangle, the same `box` (`Triangle::local_aabb`) as the current triangles — `Qbvh::clear_and_rebuild`
+being a function of the list of leaf boxes, the tree is then the one a fresh build constructs.  `box` is any
+function satisfying `BoxLaws` (it respects the vertex equality used for merging and is symmetric in the first two
+vertices), which the component-wise min/max box does. -/
+
+/-- a fresh mesh has a QBVH built from its final buffers -/
+theorem withFlags_qcoherent {B : Type} (box : V × V × V → B) (dim3 : Bool) (vs : List V) (idx : List Tri) (f : Flags)
+    (s : Mesh V N) (h : withFlags dim3 vs idx f = .ok s) : QCoherent box s :=
+  withFlags_qcoherent' box h
+
+/-- `set_flags` rebuilds the QBVH only when the number of triangles changes; this is enough: when the number does not
+change no triangle was deleted, and merging vertices does not move any triangle corner -/
+theorem setFlags_qcoherent {B : Type} (box : V × V × V → B) (hbox : BoxLaws (N := N) box) (dim3 : Bool)
+    (s s' : Mesh V N) (f : Flags) (r : Option TopoErr)
+    (hq : QCoherent box s) (h : setFlags dim3 s f = some (s', r)) : QCoherent box s' :=
+  setFlags_qcoherent' box hbox hq h
+
+/-- `reverse` keeps the QBVH: "the Qbvh [is] not changed by this operation" -/
+theorem reverse_qcoherent {B : Type} (box : V × V × V → B) (hbox : BoxLaws (N := N) box) (dim3 : Bool)
+    (s s' : Mesh V N) (hq : QCoherent box s) (h : reverse dim3 s = some s') : QCoherent box s' :=
+  reverse_qcoherent' box hbox hq h
+
+/-- **QBVH part of C11** for the fixed code: along any history the QBVH is the one of the current buffers -/
+theorem history_qcoherent {B : Type} (box : V × V × V → B) (hbox : BoxLaws (N := N) box) (dim3 : Bool)
+    (vs : List V) (idx : List Tri) (f : Flags) (ops : List (Op V N)) (s0 s : Mesh V N)
+    (h0 : withFlags dim3 vs idx f = .ok s0) (h : run dim3 s0 ops = some s) : QCoherent box s := by
+  have hc0 := withFlags_qcoherent box dim3 vs idx f s0 h0
+  clear h0
+  induction ops generalizing s0 with
+  | nil => simp only [run, Option.some.injEq] at h; subst h; exact hc0
+  | cons op ops ih =>
+    simp only [run] at h
+    split at h
+    · cases h
+    · rename_i s1 hs
+      apply ih s1 h
+      cases op with
+      | setFlags f' =>
+        simp only [step, Option.map_eq_some_iff] at hs
+        obtain ⟨⟨s2, r⟩, h1, rfl⟩ := hs
+        exact setFlags_qcoherent box hbox dim3 s0 s2 f' r hc0 h1
+      | reverse => exact reverse_qcoherent box hbox dim3 s0 s1 hc0 hs
+      | append rhs => exact withFlags_qcoherent box dim3 _ _ _ s1 (append_eq_some hs)
+
+/-- `merge_duplicate_vertices` never produces more triangles, produces a well-formed index buffer, and when it deletes
+no triangle every triangle keeps its box -/
+theorem mergeBuffers_boxes {B : Type} (box : V × V × V → B) (hbox : BoxLaws (N := N) box) (dd ddup : Bool)
+    (vs nv : List V) (idx ni : List Tri) (h : mergeBuffers (N := N) dd ddup vs idx = some (nv, ni)) :
+    ni.length ≤ idx.length ∧ (allCoords nv ni).isSome = true ∧
+    (ni.length = idx.length → ∃ cs cur, allCoords vs idx = some cs ∧ allCoords nv ni = some cur ∧ cur.map box = cs.map box) :=
+  mergeBuffers_spec box hbox h
+
 /-! ## "what a fresh build would give" is well defined -/
 
 /-- the fixes do not change `TriMesh::with_flags`: as written and fixed, it builds the same mesh -/
@@ -308,6 +363,26 @@ theorem connectedComponents_reverse (nv : Nat) (idx : List Tri) : computeCC nv (
 theorem pseudoNormals_reverse [LawfulGeo V N] (vs : List V) (idx : List Tri) :
     (computePN vs (revIdx idx) : Option (PN N)) = (computePN vs idx).map (negPN (V := V) · true) :=
   computePN_rev vs idx
+
+/-- the component-wise min/max box of the planar geometry satisfies `BoxLaws` (non-vacuity of the QBVH theorems) -/
+def planarBox (c : Pt × Pt × Pt) : Pt × Pt :=
+  ((min (min c.1.1 c.2.1.1) c.2.2.1, min (min c.1.2 c.2.1.2) c.2.2.2),
+   (max (max c.1.1 c.2.1.1) c.2.2.1, max (max c.1.2 c.2.1.2) c.2.2.2))
+
+theorem planarBox_laws : BoxLaws (N := Int) planarBox where
+  congr_a p q b c h := by have : p = q := by simpa [Geo.veq] using h
+                          rw [this]
+  congr_b p q a c h := by have : p = q := by simpa [Geo.veq] using h
+                          rw [this]
+  congr_c p q a b h := by have : p = q := by simpa [Geo.veq] using h
+                          rw [this]
+  swap a b c := by simp [planarBox, min_comm, max_comm]
+
+example : ∃ s : Mesh Pt Int,
+    hist true [(0,0),(1,0),(0,1),(1,0),(0,1),(1,1)] [⟨0,1,2⟩, ⟨3,5,4⟩] (fl 2) [.setFlags (fl 19), .reverse] = some s ∧
+    s.vertices.length = 4 ∧ s.qbvh.map (·.length) = some 2 ∧
+    s.qbvh.map (·.map planarBox) = (allCoords s.vertices s.indices).map (·.map planarBox) :=
+  ⟨_, rfl, by decide, by decide, by decide⟩
 
 /-- the same seven histories with the fixed operations end in coherent states (instances of `history_coherent`) -/
 example : ∃ s : Mesh Pt Int,
